@@ -34,4 +34,13 @@ def before (l : List Atom) (p q : Atom → Bool) : Bool :=
 
 def count (p : Atom → Bool) (l : List Atom) : Nat := (l.filter p).length
 
+/-- remove the bodies of function literals (they run when the callee decides, e.g. `filepath.Walk`) -/
+def dropFuncBodies : List Atom → Nat → List Atom
+  | [], _ => []
+  | a :: as, depth =>
+    if a.kind == .funcB_ then dropFuncBodies as (depth + 1)
+    else if a.kind == .endB_ && a.name == "func" then dropFuncBodies as (depth - 1)
+    else if depth > 0 then dropFuncBodies as depth
+    else a :: dropFuncBodies as depth
+
 end SciVerif.Tie
